@@ -55,7 +55,9 @@ def run_property(pid: str, tier: str, seed: int, cfgs: Sequence[catalog.Cfg],
              for c in cfgs]
     tasks += list(extra_tasks)
     run_tasks(rep, tasks)
-    if require:
+    import os
+
+    if require and not (os.environ.get("VERIF_FAMILIES") or os.environ.get("VERIF_MODELS")):
         rep.require_positive(*require)
     return rep
 
